@@ -11,6 +11,7 @@ import (
 
 	v3 "github.com/projectcalico/api/pkg/apis/projectcalico/v3"
 
+	intdataplane "github.com/projectcalico/calico/felix/dataplane/linux"
 	"github.com/projectcalico/calico/felix/environment"
 	"github.com/projectcalico/calico/felix/generictables"
 	"github.com/projectcalico/calico/felix/ipsets"
@@ -106,6 +107,53 @@ func baseConfig() rules.Config {
 	}
 }
 
+// recTable records what setUpIptablesBPF programs into a filter table.
+type recTable struct {
+	generictables.NoopTable
+	ipVersion uint8
+	top       map[string][]generictables.Rule
+	chains    map[string]*generictables.Chain
+}
+
+func newRecTable(v uint8) *recTable {
+	return &recTable{ipVersion: v, top: map[string][]generictables.Rule{}, chains: map[string]*generictables.Chain{}}
+}
+func (t *recTable) IPVersion() uint8 { return t.ipVersion }
+func (t *recTable) InsertOrAppendRules(chain string, rs []generictables.Rule) {
+	t.top[chain] = append(t.top[chain], rs...)
+}
+func (t *recTable) AppendRules(chain string, rs []generictables.Rule) {
+	t.top[chain] = append(t.top[chain], rs...)
+}
+func (t *recTable) UpdateChain(c *generictables.Chain) { t.chains[c.Name] = c }
+func (t *recTable) UpdateChains(cs []*generictables.Chain) {
+	for _, c := range cs {
+		t.chains[c.Name] = c
+	}
+}
+
+// bpfSetUp runs the REAL setUpIptablesBPF (via the add-only hook) for the case's config.
+func bpfSetUp(s *state, ipVersion uint8, bpf6 bool) (*recTable, rules.RuleRenderer) {
+	c := s.cfg
+	c.BPFEnabled = true
+	t := newRecTable(ipVersion)
+	if nftMode {
+		nftR = nftables.NewNFTRenderer("", ipVersion)
+	}
+	r := intdataplane.VerifC40SetUpIptablesBPF(c, s.nft, bpf6, []generictables.Table{t})
+	return t, r
+}
+
+func wlEps(names string) map[types.WorkloadEndpointID]*proto.WorkloadEndpoint {
+	eps := map[types.WorkloadEndpointID]*proto.WorkloadEndpoint{}
+	if names != "-" {
+		for i, n := range strings.Split(names, ",") {
+			eps[types.WorkloadEndpointID{OrchestratorId: "k8s", WorkloadId: fmt.Sprintf("w%d", i), EndpointId: "eth0"}] = &proto.WorkloadEndpoint{Name: n}
+		}
+	}
+	return eps
+}
+
 // cfg <ipip> <vxlan> <vxport> <toHost> <filterAllow> <mangleAllow> <deny> <noInvalid> <prefixes> <failsafeIn> <failsafeOut>
 func exec(h *rt.H, s *state, op string) string {
 	w := strings.Fields(op)
@@ -180,6 +228,15 @@ func exec(h *rt.H, s *state, op string) string {
 			return findChain(cs, rules.ChainFromWorkloadDispatch)
 		}
 		return findChain(cs, rules.ChainToWorkloadDispatch)
+	case "bpf":
+		// bpf <INPUT|FORWARD|OUTPUT> <4|6> <bpfIPv6 0|1> <known workload ifaces|->
+		v, _ := strconv.Atoi(w[2])
+		t, _ := bpfSetUp(s, uint8(v), w[3] == "1")
+		defer func() { nftR = nftables.NewNFTRenderer("", 4) }()
+		return renderChain(&generictables.Chain{Name: w[1], Rules: t.top[w[1]]})
+	case "wlallow":
+		// wlallow <iface|->  : the BPF-mode cali-to-wl-dispatch chain (WorkloadInterfaceAllowChains)
+		return findChain(s.r.WorkloadInterfaceAllowChains(wlEps(w[1])), rules.ChainToWorkloadDispatch)
 	case "hepdispatch":
 		eps := map[string]types.HostEndpointID{}
 		if w[1] != "-" {
@@ -242,6 +299,7 @@ type probe struct {
 	ct       string // NEW | ESTABLISHED | INVALID
 	in, out  string
 	mark     uint32
+	icmpType int
 }
 
 var commentRe = regexp.MustCompile(`-m comment --comment "[^"]*" ?`)
@@ -267,7 +325,7 @@ func inCIDR(addr, cidr string) bool {
 	return n.Contains(net.ParseIP(addr))
 }
 
-var protoNum = map[string]string{"tcp": "6", "udp": "17", "sctp": "132"}
+var protoNum = map[string]string{"tcp": "6", "udp": "17", "sctp": "132", "icmpv6": "58"}
 
 // evalIpt runs the probe through the rendered rules of one chain.  Chains in `known` are followed on
 // a jump; a jump to any other chain ends the evaluation with "JUMP:<chain>".  Returns ACCEPT, DROP,
@@ -284,7 +342,11 @@ func evalIpt(lines []string, p probe, known map[string][]string) string {
 		match := true
 		action := ""
 		var setMark string
+		neg := false
 		for i := 0; i < len(tok); i++ {
+			if neg && tok[i] != "--mark" {
+				return "unknown" // a negation this evaluator does not interpret
+			}
 			arg := func() string {
 				i++
 				if i < len(tok) {
@@ -335,7 +397,16 @@ func evalIpt(lines []string, p probe, known map[string][]string) string {
 				if e1 != nil || e2 != nil {
 					return "unknown"
 				}
-				if p.mark&uint32(m) != uint32(v) {
+				if (p.mark&uint32(m) == uint32(v)) == neg {
+					match = false
+				}
+				neg = false
+			case "!":
+				neg = true
+			case "--reject-with":
+				arg()
+			case "--icmpv6-type":
+				if v := arg(); v != strconv.Itoa(p.icmpType) {
 					match = false
 				}
 			case "--jump", "--goto":
@@ -352,6 +423,8 @@ func evalIpt(lines []string, p probe, known map[string][]string) string {
 		switch action {
 		case "ACCEPT", "DROP", "RETURN":
 			return action
+		case "REJECT":
+			return "DROP" // the packet does not pass
 		case "MARK":
 			vm := strings.Split(setMark, "/")
 			v, e1 := strconv.ParseUint(strings.TrimPrefix(vm[0], "0x"), 16, 32)
@@ -512,6 +585,61 @@ func oracle(h *rt.H, s *state, op string, out string) {
 				fail("hep-failsafe-probe-not-accepted", fmt.Sprintf("NEW %s/%d probe on a failsafe port gets %q instead of ACCEPT", pp.Protocol, pp.Port, v))
 			}
 		}
+	case w[0] == "bpf" && (w[1] == "INPUT" || w[1] == "FORWARD"):
+		// BPF mode: an interface that matches a workload prefix but has no BPF program attached (Felix
+		// does not know it) yields packets without the BPF "seen" mark; they must be dropped on the input
+		// and the forward path whatever the destination (verdict of the REAL programmed rules, with the
+		// REAL cali-to-wl-dispatch chain for the known workloads)
+		if s.nft {
+			h.Count("obs:bpf-probe-skipped-nft")
+			return
+		}
+		known := map[string][]string{}
+		var knownIf []string
+		if w[4] != "-" {
+			knownIf = strings.Split(w[4], ",")
+		}
+		for _, c := range s.r.WorkloadInterfaceAllowChains(wlEps(w[4])) {
+			known[c.Name] = chainLines(renderChain(c))
+		}
+		outs := append([]string{"eth0", "bpfout.cali", ""}, knownIf...)
+		for _, pfx := range s.cfg.WorkloadIfacePrefixes {
+			outs = append(outs, pfx+"zzother")
+		}
+		if w[1] == "INPUT" {
+			outs = []string{""}
+		}
+		const seen = 0x01000000
+		for _, pfx := range s.cfg.WorkloadIfacePrefixes {
+			for _, out := range outs {
+				for _, mark := range []uint32{0, 0x08000000, 0x02000000, 0x04000000, 0x06f00000, h.Rng.Uint32() &^ seen} {
+					for _, ct := range []string{"NEW", "ESTABLISHED"} {
+						pk := probe{proto: rt.Pick(h, []string{"tcp", "udp", "icmpv6"}), dport: 80, ct: ct, in: pfx + "rogue0", out: out, mark: mark, icmpType: 135}
+						v := evalIpt(lines, pk, known)
+						switch v {
+						case "DROP":
+							h.Count("obs:bpf-unknown-iface-probe-dropped")
+						case "unknown":
+							h.Count("obs:bpf-probe-unknown-syntax")
+						default:
+							fail("bpf-unknown-workload-iface-not-dropped", fmt.Sprintf(
+								"BPF mode, IPv%s filter %s: %s packet from %q (matches a workload prefix, no BPF seen mark, mark=%#x, ct=%s) to out-interface %q gets %q instead of DROP",
+								w[2], w[1], pk.proto, pk.in, mark, ct, out, v))
+							return
+						}
+					}
+				}
+			}
+		}
+		// observation only: a policed packet (seen mark) from a known workload leaving the host is accepted
+		if w[1] == "FORWARD" && len(knownIf) > 0 && (w[2] == "4" || w[3] == "1") {
+			v := evalIpt(lines, probe{proto: "tcp", dport: 80, ct: "NEW", in: knownIf[0], out: "eth0", mark: seen}, known)
+			h.Count("obs:bpf-seen-known-forward:" + v)
+		}
+	case w[0] == "wlallow":
+		if len(lines) == 0 || !s.isDrop(lines[len(lines)-1]) || strings.Contains(lines[len(lines)-1], "-interface") || strings.Contains(lines[len(lines)-1], "ifname") {
+			fail("dispatch-not-fail-closed", "BPF-mode to-workload dispatch chain does not end with an unconditional drop")
+		}
 	case w[0] == "wldispatch":
 		if len(lines) == 0 || !s.isDrop(lines[len(lines)-1]) || strings.Contains(lines[len(lines)-1], "-interface") || strings.Contains(lines[len(lines)-1], "ifname") {
 			fail("dispatch-not-fail-closed", "workload dispatch chain does not end with an unconditional drop")
@@ -656,6 +784,13 @@ func genCase(h *rt.H) []string {
 	}
 	ifc := rt.Pick(h, []string{"-", "cali1234abcd", "tapx"})
 	all = append(all, "wldispatch from "+ifc, "wldispatch to "+ifc, "hepdispatch "+rt.Pick(h, []string{"-", "eth0"}))
+	// BPF mode: the static rules setUpIptablesBPF programs into filter INPUT/FORWARD/OUTPUT
+	pfx0 := strings.Split(pfx, ",")[0]
+	knownIfs := rt.Pick(h, []string{"-", pfx0 + "1234abcd", pfx0 + "1234abcd," + pfx0 + "zzother"})
+	for _, hook := range []string{"INPUT", "FORWARD", "FORWARD", "OUTPUT"} {
+		all = append(all, fmt.Sprintf("bpf %s %s %s %s", hook, rt.Pick(h, []string{"4", "6"}), b01(h.Bool()), knownIfs))
+	}
+	all = append(all, "wlallow "+rt.Pick(h, []string{"-", pfx0 + "1234abcd"}))
 	h.Rng.Shuffle(len(all), func(i, j int) { all[i], all[j] = all[j], all[i] })
 	return append(ops, all[:6+h.Intn(len(all)-5)]...)
 }
@@ -671,9 +806,10 @@ func main() {
 	h := rt.New()
 	defer h.Close()
 	h.Rule = "case = one generated rules.Config (ipip/vxlan on/off, vxlan port, endpoint-to-host action, filter/mangle allow action, " +
-		"conntrack-invalid switch, 1..3 workload prefixes, 0..3 inbound and outbound failsafe ports with optional nets) + 6..17 rendered chains " +
+		"conntrack-invalid switch, 1..3 workload prefixes, 0..3 inbound and outbound failsafe ports with optional nets) + 6..22 rendered chains " +
 		"(static INPUT/FORWARD/wl-to-host, failsafe-in/out in raw/mangle/filter, 5 kinds of host endpoint chain with 0..3 tiers of 1..3 " +
-		"(possibly staged) policies, flat workload/host dispatch chains); non-trivial = config has a failsafe port and a tunnel enabled"
+		"(possibly staged) policies, flat workload/host dispatch chains, BPF-mode filter INPUT/FORWARD/OUTPUT rules programmed by the real " +
+		"setUpIptablesBPF for the IPv4/IPv6 table with BPF IPv6 on/off and 0..2 known workloads); non-trivial = config has a failsafe port and a tunnel enabled"
 	run := func(ops []string, tag string) {
 		h.Case(tag)
 		s := &state{}
